@@ -4,6 +4,7 @@ import (
 	"go/token"
 	"go/types"
 	"sort"
+	"strings"
 
 	"golang.org/x/tools/go/ssa"
 )
@@ -332,6 +333,9 @@ func (e *Engine) callWrites(cc *ssa.CallCommon, w *WriteSet, fn *ssa.Function, v
 		}
 		return
 	case *ssa.Function:
+		if e.contractCallWrites(f, cc, w, fn) {
+			return
+		}
 		inRegion := func(in ssa.Instruction) bool {
 			if w.regionBlocks == nil {
 				return in.Parent() == fn
@@ -491,6 +495,16 @@ func (e *Engine) contractWrites(c *FuncContract, w *WriteSet) {
 			}
 			if a == "*" {
 				w.setAll("loops.go:336")
+				continue
+			}
+			if strings.HasPrefix(a, "Pointee(") || strings.HasPrefix(a, "MapOf(") {
+				w.setAll("assigns " + a + " (no call site)")
+				continue
+			}
+			if ks, ok := e.staticAssignKeys(a); ok {
+				for _, k := range ks {
+					w.Heap[k] = true
+				}
 				continue
 			}
 			w.Heap[a] = true // resolved later by name matching
